@@ -27,8 +27,8 @@ HasFlagged(k) == k \in {"blp", "m2", "wmo_root", "skin", "dbc"}      \* dbc: a s
 Variants(k) == IF Thorough THEN 0..(VariantCount(k) - 1) ELSE {SeedN % VariantCount(k)}
 
 \* option flags per sub-command: listings get every output-format option
-Opts(f, c) == IF <<f, c>> = <<"mpq", "list">> THEN 0..15         \* {plain, --long} x {no filter, 7 filter pattern shapes}
-              ELSE IF <<f, c>> = <<"mpq", "tree">> THEN 0..7      \* no filter, 7 filter pattern shapes
+Opts(f, c) == IF <<f, c>> = <<"mpq", "list">> THEN 0..23         \* {plain, --long} x {no filter, 11 filter patterns: 7 shapes + 4 of three and more literals}
+              ELSE IF <<f, c>> = <<"mpq", "tree">> THEN 0..11     \* no filter, 11 filter patterns
               ELSE IF <<f, c>> = <<"mpq", "rebuild">> THEN 0..3   \* default, --verify, --skip-encrypted, both (source holds every file class)
               ELSE IF <<f, c>> = <<"wdt", "tiles">> THEN 0..2     \* text, csv, json
               ELSE IF <<f, c>> = <<"blp", "convert">> THEN 0..5   \* png, blp2/dxt5, --mipmap-level {0, last, last + 1, huge}
@@ -55,7 +55,7 @@ FmtCases == UNION {UNION {UNION {
                : inp \in InputsFor(fc[2], k)} : k \in KindsOf(fc[1], fc[2])} : fc \in {x \in AllCmds : x[1] # "mpq"}}
 
 Mpq1All == {[mode |-> "mpq1", fam |-> "mpq", cmd |-> c, kind |-> "mpq", input |-> inp, variant |-> v, opt |-> o, pre |-> pr, glob |-> gl]
-            : c \in Cmds("mpq"), inp \in Inputs \ {"flagviol"}, v \in (IF Thorough THEN 0..3 ELSE {SeedN % 4}), o \in 0..15, pr \in PreStates, gl \in Globs}
+            : c \in Cmds("mpq"), inp \in Inputs \ {"flagviol"}, v \in (IF Thorough THEN 0..3 ELSE {SeedN % 4}), o \in 0..23, pr \in PreStates, gl \in Globs}
 Mpq1Cases == {x \in Mpq1All : /\ x.opt \in Opts("mpq", x.cmd) /\ x.pre \in Pres("mpq", x.cmd, x.input)
                               /\ x.glob \in GlobsFor(x.input, x.opt, x.pre)
                               /\ (x.cmd = "create" => x.input \in {"valid", "nonexistent"})}
